@@ -840,6 +840,15 @@ func (cr *ConRun) runTxn() {
 	cr.stat("outcome:"+cr.Res.Outcome, 1)
 	hj, _ := json.Marshal(hist)
 	cr.TxnHist = hj
+	if os.Getenv("VERIF_TRACE") != "" {
+		for _, h := range hist {
+			fmt.Fprintf(os.Stderr, "txn %d outcome=%s end=[%d,%d]\n", h.ID, h.Outcome, h.EndCall, h.EndRet)
+			for _, hs := range h.Stmts {
+				fmt.Fprintf(os.Stderr, "   [%d,%d] %s path=%s -> %s %v\n", hs.Call, hs.Ret, hs.St.SQL(), hs.St.Path, hs.Status, hs.Rows)
+			}
+		}
+		fmt.Fprintf(os.Stderr, "final %v\n", final)
+	}
 	if rec != nil && cr.Res.Outcome == "ok" {
 		wv, wst := walMonitor(nil, rec.Events, heapPages, -1)
 		cr.stat("wal_page_writes", wst.PageWrites)
